@@ -42,6 +42,9 @@ CHECKS.update({
  "C04": ("model_checking", "E3 intruder (key binding) + E2 char sweep", "explicit-state enumeration of intruder compositions (credential x disclosure list x KB-JWT item x verifier expectation x format) judged by a three-valued model verdict, plus every single-character edit of honest KB-JWTs",
    "Sessions A,B (same holder key), C (other holder key), N (no cnf); 11 disclosure lists per session (S, S', reordered, plus/minus one, duplicated, empty); 16 KB-JWT items made by the real holder + 40 forged (typ/nonce/aud/sd_hash absent/other/wrong type, re-signed by attacker/issuer/other-holder key, HS256 keyed with the public key, alg none, unsigned) + absent/empty/garbage; 7 verifier expectations; 2 formats; ES256 and EdDSA holder keys. MustReject => Err, MustAccept (holder-made honest) => Ok with the exact view, Either => Err or exact view. Plus 10x10 aud/nonce string alphabet and every single-character edit of 4 honest KB-JWTs.",
    "the harness holds holder key h1 to build field-level forgeries; iat freshness not asserted", "4 C04"),
+ "C11": ("model_checking", "E4 history", "breadth-first exploration of the prefix tree of API call histories on one live instance; each history executed on the real object and its last result checked against the single-call oracles and all earlier results",
+   "Issuer: every sequence of length <= 3 (quick) / 4 (thorough) over a 12-operation alphabet (two disjoint claim sets, 4 strategies, 3 holder keys, decoys, formats, 4 failing calls) and every sequence of length up to 8 over a 3/4-operation core with ES256 and EdDSA keys. Holder (compact and JSON): every sequence <= 3/4 over a 10-operation alphabet (selections x key-binding arguments, 3 failing) and up to 8 over a core. Last call must satisfy C05 (issuer) or C06+verification incl. key binding (holder); no earlier disclosure/salt/digest reappears; failing calls fail.",
+   "states are histories (instances are not clonable); single-call oracles as in C05/C06/C01/C04", "4 C11"),
 })
 NOT_YET = {}
 def main():
